@@ -42,14 +42,14 @@ IP = "optimism.Interpolants"
 def run(ctx):
     for m in (ME, RX, IP, "optimism.ReadMesh", "optimism.FunctionSpace"):
         ctx.need_module(m)
-    d1_lossless(ctx)
-    d1_kinds(ctx)
-    d2_one_based(ctx)
-    d2_block_ranges(ctx)
-    d2_permutation(ctx)
-    d3_elevation(ctx)
+    ctx.guard(d1_lossless, ctx)
+    ctx.guard(d1_kinds, ctx)
+    ctx.guard(d2_one_based, ctx)
+    ctx.guard(d2_block_ranges, ctx)
+    ctx.guard(d2_permutation, ctx)
+    ctx.guard(d3_elevation, ctx)
     from . import parentelem
-    parentelem.run(ctx, "D3/T6-parent-element-tables")
+    ctx.guard(parentelem.run, ctx, "D3/T6-parent-element-tables")
     ctx.trust("Exodus II stores node/element/side numbers one-based; TRI6 = 3 vertices then mid-side nodes 3:(0,1) 4:(1,2) 5:(2,0)")
     ctx.assume("meshes have at least one block; sets are dicts name -> index array")
 
@@ -257,7 +257,7 @@ def _merge_paths(cfg, lp, new, key):
 
 
 def _kind(ctx, cfg, node, e, mesh1):
-    ex = expand(cfg, node, e)
+    ex = expand(cfg, node, e, stop=(mesh1,))
     s = src(ex)
     if s == f"{mesh1}.coords.shape[0]" or s == f"num_nodes({mesh1})":
         return "node-count(first)"
@@ -761,20 +761,51 @@ def d3_elevation(ctx):
                detail=f"`{shown}`: offset advanced by (number of edges) x (nodes per edge)",
                bad_detail=f"interior node numbers start after `{shown}`, which is not (number of edges) x (new nodes per edge = {per_edge!r}): "
                           f"numbers would collide with edge nodes or leave gaps")
-    # coordinates stacked in numbering order
-    u = Unifier(sc)
+    # coordinates stacked in numbering order: vertices, then the nodes derived from the edge list, then the element-interior nodes.
+    # Roles are decided by what each stacked block is computed from (flow-insensitive def-use closure), not by names or shapes of statements.
     mp = sc.params()[0]
+    uses_ = {}
+    for st_ in ast.walk(sc.node):
+        tg_ = []
+        val_ = None
+        if isinstance(st_, ast.Assign):
+            val_ = st_.value
+            for t_ in st_.targets:
+                tg_ += [x.id for x in ast.walk(t_) if isinstance(x, ast.Name)]
+        elif isinstance(st_, ast.FunctionDef) and st_ is not sc.node:
+            tg_, val_ = [st_.name], st_
+        if val_ is None:
+            continue
+        marks = {x.id for x in ast.walk(val_) if isinstance(x, ast.Name)} | {"." + x.attr for x in ast.walk(val_) if isinstance(x, ast.Attribute)}
+        for t_ in tg_:
+            uses_.setdefault(t_, set()).update(marks - {t_})
+
+    def closure_(e_):
+        seen_, work_ = set(), [x.id for x in ast.walk(e_) if isinstance(x, ast.Name)] + ["." + x.attr for x in ast.walk(e_) if isinstance(x, ast.Attribute)]
+        while work_:
+            x_ = work_.pop()
+            if x_ in seen_:
+                continue
+            seen_.add(x_)
+            work_ += list(uses_.get(x_, ()))
+        return seen_
+    vst = [st for st in ast.walk(sc.node) if isinstance(st, ast.Assign) and isinstance(st.value, ast.Call) and (dotted(st.value.func) or "").endswith("vstack")
+           and st.value.args and isinstance(st.value.args[0], ast.Tuple) and len(st.value.args[0].elts) == 3]
     ok = False
-    stk = None
-    e_st = [st for st in ast.walk(sc.node) if isinstance(st, ast.Assign) and isinstance(st.targets[0], ast.Tuple) and "create_edges" in src(st.value)]
-    if len(e_st) == 1 and u.match(e_st[0], ast.parse(f"edgeConns, edges = create_edges({mp}.conns)").body[0]):
-        a1 = u.assigns(f"vmap(lambda edgeConn: np.dot(A, {mp}.coords[edgeConn, :]))(edgeConns)", target="edgeCoords")
-        a2 = u.assigns(f"vmap(lambda triConn: np.dot(A, {mp}.coords[triConn]))({mp}.conns)", target="interiorCoords")
-        stk = u.assigns(f"np.vstack(({mp}.coords, edgeCoords.reshape(-1, 2), interiorCoords.reshape(-1, 2)))", target="coords")
-        ok = len(a1) == 1 and len(a2) == 1 and len(stk) == 1
-    vst = [st for st in ast.walk(sc.node) if isinstance(st, ast.Assign) and isinstance(st.value, ast.Call) and (dotted(st.value.func) or "").endswith("vstack")]
-    ctx.decide(rule, ok, sc, (stk[0] if stk else (vst[0] if vst else None)), construct="coords-stacked-in-numbering-order", detail="vstack((vertices, edge nodes, interior nodes))",
+    if len(vst) == 1:
+        e0, e1, e2 = vst[0].value.args[0].elts
+        d1, d2 = closure_(e1), closure_(e2)
+        ok = same(e0, f"{mp}.coords") and "create_edges" in d1 and "create_edges" not in d2 and ".interiorNodes" in d2 and ".conns" in d2
+    ctx.decide(rule, ok, sc, vst[0] if vst else None, construct="coords-stacked-in-numbering-order", detail="vstack((vertices, edge nodes, interior nodes))",
                bad_detail=f"coordinates stacked as `{src(vst[0].value)[:110] if vst else '?'}`; node numbers are vertices, then edge nodes (from the edge connectivity), then interior nodes")
+    u = Unifier(sc)
+    # the name of the interior-coordinates block (third stacked block) for the affine-map check below
+    if len(vst) == 1:
+        base_ = vst[0].value.args[0].elts[2]
+        while isinstance(base_, (ast.Call, ast.Attribute)):
+            base_ = base_.func if isinstance(base_, ast.Call) else base_.value
+        if isinstance(base_, ast.Name):
+            u.bind["interiorCoords"] = base_.id
     # interior-node affine map convention == FunctionSpace.map_element_shape_grads convention
     fsmap = ctx.need("optimism.FunctionSpace:map_element_shape_grads")
     fcfg = cfg_of(fsmap)
